@@ -5,7 +5,7 @@ MAXW = (1 << 64) - 1
 
 class Case:
     def __init__(self, cid, kind, vals=None, start=0, stop=0, script=None, hint="inexact", adapt="none",
-                 threads=None, owner="drop", sched=None, frozen=None, iters=1, mode="release", clonepanic=None, droppanic=None, zst=False, tags=None, pod=False, spare=0, inpanic=None, clonepoint=False, rawskip=False, clonefrom=False, relocate=None, zstiter=False, reenter=None, nested=False, fat=0, viafrom=False):
+                 threads=None, owner="drop", sched=None, frozen=None, iters=1, mode="release", clonepanic=None, droppanic=None, zst=False, tags=None, pod=False, spare=0, inpanic=None, clonepoint=False, rawskip=False, clonefrom=False, relocate=None, zstiter=False, reenter=None, nested=False, fat=0, viafrom=False, dropwait=None):
         self.id = cid
         self.kind = kind            # slice vecref arrref vec array range iter iterref
         self.vals = list(vals or [])
@@ -31,6 +31,7 @@ class Case:
         self.nested = nested            # kind iter: the iterator under test wraps `values()` of an inner concurrent iterator over the probe
         self.fat = fat                  # element size in bytes (128 | 65536): large elements with a destructor / large Copy elements under copied()
         self.viafrom = viafrom          # built with `ConIterOfX::from(source)` instead of `into_con_iter` (slice, vec, array, range, iter)
+        self.dropwait = dropwait        # (v, t): the destructor of element v, run by a thread of the case, waits until thread t has finished
         self.rawskip = rawskip          # `skip` = the public `AtomicIter::early_exit` instead of `skip_to_end`
         self.clonepoint = clonepoint    # `Clone::clone` of an element is a scheduling point (impl-only cases)
         self.inpanic = list(inpanic or [])   # threads whose ops run inside a destructor during an unrelated unwinding
@@ -129,6 +130,8 @@ class Case:
             L.append("clonepoint")
         if self.rawskip:
             L.append("rawskip")
+        if self.dropwait is not None:
+            L.append("dropwait %d %d" % tuple(self.dropwait))
         if self.viafrom:
             L.append("viafrom")
         if self.fat:
@@ -215,6 +218,8 @@ def parse_cases(text):
             cur.clonepoint = True
         elif toks[0] == "rawskip":
             cur.rawskip = True
+        elif toks[0] == "dropwait":
+            cur.dropwait = (int(toks[1]), int(toks[2]))
         elif toks[0] == "viafrom":
             cur.viafrom = True
         elif toks[0] == "fat":
